@@ -46,6 +46,26 @@ theorem C10_encode_mono (R : Rnd) (ipd tfs d1 d2 : ℤ) (h1 : 1 ≤ ipd) (hday :
     encode R.r ipd d1 ≤ encode R.r ipd d2 :=
   encode_mono_core R ipd tfs d1 d2 h1 hday hd0 h12 hd2
 
+/-! ## from the Go entry point to the encoder -/
+
+/-- `IndexToTimeDepr` (float arithmetic) is exact for every timeframe dividing a day -/
+theorem C10_base_time_exact (R : Rnd) (index ipd tfs : ℤ) (h1 : 1 ≤ ipd) (hday : ipd * tfs = 86400)
+    (hi1 : 1 ≤ index) (hi2 : index ≤ 366 * ipd) :
+    indexToTimeDeprOffset R.r index ipd = (index - 1) * (tfs * 1000000000) :=
+  indexToTimeDeprOffset_exact R index ipd tfs h1 hday hi1 hi2
+
+/-- `GetIntervalTicks32Bit(ts, index, ipd)` is `encode` of the offset of `ts` from the start of
+    slot `index` as defined by `IndexToTime` (C30), for sub-day timeframes in UTC -/
+theorem C10_ticks_of_offset (R : Rnd) (ts index ipd tfs : ℤ) (h1 : 1 ≤ ipd) (hday : ipd * tfs = 86400)
+    (htf : tfs * 1000000000 ≠ Mkts.Time.dayNs) (hi1 : 1 ≤ index) (hi2 : index ≤ 366 * ipd)
+    (hd0 : 0 ≤ ts - Mkts.Time.indexToTime Mkts.Time.utc index (tfs * 1000000000) (Mkts.Time.localYear Mkts.Time.utc ts))
+    (hd1 : ts - Mkts.Time.indexToTime Mkts.Time.utc index (tfs * 1000000000) (Mkts.Time.localYear Mkts.Time.utc ts)
+      < tfs * 1000000000) :
+    getIntervalTicks32Bit R.r ts index ipd =
+      encode R.r ipd (ts - Mkts.Time.indexToTime Mkts.Time.utc index (tfs * 1000000000)
+        (Mkts.Time.localYear Mkts.Time.utc ts)) :=
+  getIntervalTicks32Bit_eq R ts index ipd tfs h1 hday htf hi1 hi2 hd0 hd1
+
 /-! ## the repaired decoder: the full property -/
 
 /-- sharp form of the error bound: never late, early by less than `tf/2^32 + 0.54` ns -/
